@@ -3,7 +3,7 @@
 use std::{
     marker::PhantomData,
     sync::Arc,
-    sync::mpsc::{Sender, channel},
+    sync::mpsc::{RecvTimeoutError, Sender, channel},
     thread,
     time::{Duration, Instant},
 };
@@ -59,9 +59,14 @@ where
                         last_flush = Instant::now();
                         let _ = sender.send(());
                     }
-                    Err(_) => {
+                    Err(RecvTimeoutError::Timeout) => {
                         inner.flush();
                         last_flush = Instant::now();
+                    }
+                    // every handle is gone: emit what is still held and let the thread end
+                    Err(RecvTimeoutError::Disconnected) => {
+                        inner.flush();
+                        break;
                     }
                 }
             }
